@@ -157,5 +157,220 @@ func FixedJoinCases(cf *lib.CaseFile) {
 		cf.Count("node_join")
 		cf.Count("join_schedule_fixed_closed_side_still_buffered")
 		cf.Count("join_schedule_fixed_closed_side_still_buffered")
+		// a key is emptied and refilled on one side (insert, full retraction, re-insert, and once more with a second
+		// row) while the other side holds a row with that key; no event times, so every record is processed at once
+		keeper := []Msg{rec(1, 100, 0, false), rec(2, 300, 0, false), {Kind: kClose}}
+		churn := []Msg{rec(1, 200, 0, false), rec(1, 200, 0, true), rec(1, 201, 0, false), rec(1, 202, 0, false), rec(1, 201, 0, true), rec(1, 202, 0, true), rec(1, 203, 0, false), {Kind: kClose}}
+		var d1, d2 []bool
+		d1 = append(d1, true, true) // the keeper's two records first
+		d2 = append(d2, false, false)
+		for range churn[:len(churn)-1] {
+			d1 = append(d1, false)
+			d2 = append(d2, true)
+		}
+		d1 = append(d1, true, false) // then both ends
+		d2 = append(d2, false, true)
+		addJoinCase(cf, cfg, keeper, churn, d1, "fixed_key_emptied_and_refilled")
+		addJoinCase(cf, cfg, churn, keeper, d2, "fixed_key_emptied_and_refilled")
+		cf.Count("node_join")
+		cf.Count("node_join")
+	}
+}
+
+// ---- round 2: every node object is run twice, nodes are composed, and a deferring consumer sits on top ----
+
+// GenStage draws one pipeline stage for rows of the given arity and returns the arity of what it emits.
+func GenStage(r *lib.Rng, arity int) (Spec, int) {
+	switch r.Intn(6) {
+	case 0:
+		return Spec{Kind: NFilter, E: GenExpr(r, arity, true)}, arity
+	case 1:
+		n := 1 + r.Intn(3)
+		s := Spec{Kind: NMap}
+		for i := 0; i < n; i++ {
+			s.Es = append(s.Es, GenExpr(r, arity, false))
+		}
+		return s, n
+	case 2:
+		return Spec{Kind: NDistinct}, arity
+	case 3:
+		return Spec{Kind: NLimit, N: int64(r.Intn(5))}, arity
+	case 4:
+		return Spec{Kind: NOst, Keys: GenKeys(r, arity)}, arity
+	default:
+		return Spec{Kind: NOst, Keys: GenKeys(r, arity), HasLimit: true, Limit: int64(r.Intn(4))}, arity
+	}
+}
+
+// GenPipe draws a pipeline of 2..3 stages.
+func GenPipe(r *lib.Rng, arity int) Spec {
+	p := Spec{Kind: NPipe}
+	for k := 2 + r.Intn(2); k > 0; k-- {
+		var st Spec
+		st, arity = GenStage(r, arity)
+		p.Pipe = append(p.Pipe, st)
+	}
+	return p
+}
+
+func col(i int) Expr { return Expr{Kind: EVar, I: i} }
+
+// FixedPipelines: LIMIT above ORDER BY (an outer LIMIT over an ordered subquery) and the other orders of stacking
+// Map / Filter / Limit / OrderBy / Distinct, over a script with duplicates and a retraction.
+func FixedPipelines() []FixedCase {
+	var out []FixedCase
+	ins := []lib.Event{insEv(row2(3, "c")), insEv(row2(1, "a")), insEv(row2(2, "b")), insEv(row2(1, "a")), insEv(row2(5, "e")), insEv(row2(4, "d"))}
+	withRetr := append(append([]lib.Event{}, ins...), retEv(row2(2, "b")), retEv(row2(1, "a")))
+	asc := []Key{{Desc: false, E: col(0)}}
+	desc := []Key{{Desc: true, E: col(0)}}
+	add := func(script []lib.Event, stages ...Spec) {
+		out = append(out, FixedCase{Family: "pipeline", Arity: 2, Spec: Spec{Kind: NPipe, Pipe: stages}, Script: script})
+	}
+	for n := int64(0); n <= 3; n++ {
+		for _, ks := range [][]Key{asc, desc} {
+			add(ins, Spec{Kind: NOst, Keys: ks}, Spec{Kind: NLimit, N: n})      // LIMIT above ORDER BY
+			add(withRetr, Spec{Kind: NOst, Keys: ks}, Spec{Kind: NLimit, N: n}) // ... over a source that retracts
+			add(ins, Spec{Kind: NLimit, N: n + 1}, Spec{Kind: NOst, Keys: ks})  // ORDER BY above LIMIT
+			add(ins, Spec{Kind: NOst, Keys: ks, HasLimit: true, Limit: n + 1}, Spec{Kind: NLimit, N: n})
+			add(ins, Spec{Kind: NOst, Keys: ks}, Spec{Kind: NMap, Es: []Expr{col(1), col(0)}}, Spec{Kind: NLimit, N: n})
+		}
+		add(ins, Spec{Kind: NLimit, N: n + 2}, Spec{Kind: NLimit, N: n})
+		add(ins, Spec{Kind: NLimit, N: n}, Spec{Kind: NLimit, N: n + 2})
+		add(ins, Spec{Kind: NFilter, E: Expr{Kind: EEqConst, I: 0, C: octosql.NewInt(1)}}, Spec{Kind: NMap, Es: []Expr{col(0)}}, Spec{Kind: NLimit, N: n})
+		add(withRetr, Spec{Kind: NMap, Es: []Expr{col(0)}}, Spec{Kind: NOst, Keys: asc, HasLimit: true, Limit: n + 1})
+	}
+	add(withRetr, Spec{Kind: NMap, Es: []Expr{col(0)}}, Spec{Kind: NDistinct})
+	add(withRetr, Spec{Kind: NDistinct}, Spec{Kind: NOst, Keys: desc})
+	add(withRetr, Spec{Kind: NFilter, E: Expr{Kind: EEqConst, I: 1, C: octosql.NewString("a")}}, Spec{Kind: NMap, Es: []Expr{col(1), {Kind: EAddConst, I: 0, N: 1}}})
+	return out
+}
+
+// FixedTwoRuns: scripts for running one node object twice: the second input differs from the first in length and
+// content, and both are longer and shorter than the limits used.
+func FixedTwoRuns() (specs []Spec, first, second []lib.Event) {
+	first = []lib.Event{insEv(row2(1, "a")), insEv(row2(2, "b")), insEv(row2(1, "a")), retEv(row2(2, "b"))}
+	second = []lib.Event{insEv(row2(7, "x")), insEv(row2(6, "y")), insEv(row2(7, "x")), insEv(row2(5, "z")), insEv(row2(8, "w"))}
+	asc := []Key{{Desc: false, E: col(0)}}
+	specs = []Spec{
+		{Kind: NFilter, E: Expr{Kind: EEqConst, I: 0, C: octosql.NewInt(7)}},
+		{Kind: NMap, Es: []Expr{col(1), col(0)}},
+		{Kind: NDistinct},
+		{Kind: NOst, Keys: asc},
+		{Kind: NPipe, Pipe: []Spec{{Kind: NOst, Keys: asc}, {Kind: NLimit, N: 2}}},
+	}
+	for n := int64(0); n <= 5; n++ {
+		specs = append(specs, Spec{Kind: NLimit, N: n}, Spec{Kind: NOst, Keys: asc, HasLimit: true, Limit: n})
+	}
+	return
+}
+
+// FixedBuffered: a node below an EventTimeBuffer; several retractions of different rows wait in the buffer for the
+// same watermark, one more waits for the end of the stream.
+func FixedBuffered() []FixedCase {
+	at := func(vals []octosql.Value, retr bool, et int64) lib.Event {
+		return lib.Event{Rec: execution.NewRecord(vals, retr, lib.T(et))}
+	}
+	wm := func(w int64) lib.Event { return lib.Event{IsWM: true, WM: lib.T(w)} }
+	a, b, c := row2(1, "a"), row2(2, "b"), row2(3, "c")
+	script := []lib.Event{at(a, false, 1), at(b, false, 1), at(c, false, 1), wm(2), at(a, true, 5), at(b, true, 5), wm(6), at(c, true, 9), at(a, false, 9)}
+	specs := []Spec{
+		{Kind: NMap, Es: []Expr{col(0), col(1)}},
+		{Kind: NMap, Es: []Expr{col(1)}},
+		{Kind: NFilter, E: Expr{Kind: EConst, C: octosql.NewBoolean(true)}},
+		{Kind: NPipe, Pipe: []Spec{{Kind: NFilter, E: Expr{Kind: EConst, C: octosql.NewBoolean(true)}}, {Kind: NMap, Es: []Expr{col(0), {Kind: EAddConst, I: 0, N: 1}}}}},
+		{Kind: NUnnest, I: 0},
+	}
+	var out []FixedCase
+	for _, s := range specs {
+		sc := script
+		if s.Kind == NUnnest {
+			l := func(v ...int64) []octosql.Value {
+				var vs []octosql.Value
+				for _, x := range v {
+					vs = append(vs, octosql.NewInt(x))
+				}
+				return []octosql.Value{octosql.NewList(vs), octosql.NewString("u")}
+			}
+			sc = []lib.Event{at(l(1, 2), false, 1), at(l(3), false, 1), wm(2), at(l(1, 2), true, 5), at(l(3), true, 5), wm(6)}
+		}
+		out = append(out, FixedCase{Family: "buffered_consumer", Arity: 2, Spec: s, Script: sc})
+	}
+	return out
+}
+
+// AddCase records one in-process case; wrap is the Coq constructor ("XNode", "InProc", "XBuffered").
+// A record whose values changed after it was produced is reported as a violation.
+func AddCase(cf *lib.CaseFile, wrap, family string, arity int, spec Spec, script []lib.Event, obs Obs, nontrivial bool) int {
+	js := map[string]interface{}{"kind": "in-process", "family": family, "arity": arity, "node": spec.JSON(), "input": lib.EventsJSON(script), "observed": obs.JSON()}
+	if wrap == "XBuffered" {
+		js["consumer"] = "EventTimeBuffer above the node"
+	}
+	idx := cf.Add(wrap+" ("+Nat(arity)+", "+spec.Coq()+", "+lib.CoqEvents(script)+", "+obs.Coq()+")", js, nontrivial)
+	cf.Count("family_" + family)
+	if obs.Aliased {
+		cf.Violation(idx, KindNames[spec.Kind]+" changed the values of a record after producing it (a consumer that keeps records sees the later contents)", "")
+	}
+	if obs.Panicked != nil {
+		cf.Violation(idx, KindNames[spec.Kind]+" panicked on a valid changelog", "")
+	}
+	return idx
+}
+
+// Round2Families adds the deterministic families of round 2 (every seed) and their random counterparts.
+func Round2Families(cf *lib.CaseFile, wrap string, r *lib.Rng, nRandom int, buffered bool) {
+	for _, fc := range FixedPipelines() {
+		AddCase(cf, wrap, "fixed_pipeline", fc.Arity, fc.Spec, fc.Script, fc.Spec.Run(fc.Script), true)
+	}
+	specs, first, second := FixedTwoRuns()
+	for _, sp := range specs {
+		o1, o2 := sp.RunTwice(first, second)
+		AddCase(cf, wrap, "fixed_first_run", 2, sp, first, o1, true)
+		AddCase(cf, wrap, "fixed_second_run_of_the_same_node", 2, sp, second, o2, true)
+		o1, o2 = sp.RunTwice(second, first)
+		AddCase(cf, wrap, "fixed_second_run_of_the_same_node", 2, sp, first, o2, true)
+	}
+	if buffered {
+		for _, fc := range FixedBuffered() {
+			AddCase(cf, "XBuffered", "fixed_buffered_consumer", fc.Arity, fc.Spec, fc.Script, fc.Spec.RunBuffered(fc.Script), true)
+		}
+	}
+	for i := 0; i < nRandom; i++ {
+		rr := r.Fork()
+		arity := 1 + rr.Intn(3)
+		switch i % 3 {
+		case 0: // a random pipeline
+			sp := GenPipe(rr, arity)
+			script := GenChangelog(rr, arity, -1, 10, rr.Chance(1, 3), true)
+			AddCase(cf, wrap, "random_pipeline", arity, sp, script, sp.Run(script), true)
+		case 1: // one node or pipeline object, two runs
+			var sp Spec
+			if rr.Bool() {
+				sp, _ = GenStage(rr, arity)
+			} else {
+				sp = GenPipe(rr, arity)
+			}
+			a := GenChangelog(rr, arity, -1, 8, rr.Chance(1, 3), true)
+			b := GenChangelog(rr, arity, -1, 8, rr.Chance(1, 3), true)
+			_, o2 := sp.RunTwice(a, b)
+			AddCase(cf, wrap, "random_second_run_of_the_same_node", arity, sp, b, o2, true)
+		default: // a linear node or pipeline below the buffer
+			if !buffered {
+				sp := GenPipe(rr, arity)
+				script := GenChangelog(rr, arity, -1, 10, false, true)
+				AddCase(cf, wrap, "random_pipeline", arity, sp, script, sp.Run(script), true)
+				continue
+			}
+			var sp Spec
+			switch rr.Intn(3) {
+			case 0:
+				sp = Spec{Kind: NFilter, E: GenExpr(rr, arity, true)}
+			case 1:
+				sp = Spec{Kind: NMap, Es: []Expr{GenExpr(rr, arity, false), GenExpr(rr, arity, false)}}
+			default:
+				sp = Spec{Kind: NPipe, Pipe: []Spec{{Kind: NFilter, E: GenExpr(rr, arity, true)}, {Kind: NMap, Es: []Expr{GenExpr(rr, arity, false)}}}}
+			}
+			script := GenChangelog(rr, arity, -1, 12, false, true)
+			AddCase(cf, "XBuffered", "random_buffered_consumer", arity, sp, script, sp.RunBuffered(script), true)
+		}
 	}
 }
